@@ -198,9 +198,16 @@ def r03_3(ctx):
         for p in explore(f, oracle=orc, max_visits=1):
             if p.end == 'return':
                 rv = p.ret()
+                neg = False
+                while rv[0] == 'un' and rv[1] == 'Not':          # `!inclusive` with the flag fixed by the variant
+                    rv, neg = rv[2], not neg
                 if rv[0] != 'const':
                     v = orc(rv, None)      # a comparison returned directly
                     rv = ('const', v) if v is not None else rv
+                if neg and rv[0] == 'const' and rv[1] in (0, 1):
+                    rv = ('const', 1 - rv[1])
+                elif neg:
+                    rv = ('un', 'Not', rv)
                 outs.add(rv[1] if rv[0] == 'const' else fmt(rv)[:40])
                 fk = [d for d in p.decisions if d[4] == 'fork']
                 len_forks += sum(1 for d in fk if is_len_cmp(d[2]))
@@ -271,6 +278,23 @@ def r03_7(ctx):
                 continue
             v = pushes[0][3][1]
             item = lambda x: any(is_call(y, '::next') for y in walk(x))
+            # a shared private helper `collect_with(|k, v| ..)`: the entry is what the collector's own closure makes of (key, output)
+            cm = [y for y in walk(v) if y[0] == 'call' and isinstance(y[1], str) and y[1].rsplit('::', 1)[-1] in ('call_mut', 'call', 'call_once') and len(y[2]) == 2]
+            kids = [g_ for g_ in lib.fn_list if g_.kind == 'Closure' and g_.path.startswith(f.path + '::{closure')]
+            if cm and len(kids) == 1 and cm[0][2][1][0] == 'tuple' and len(cm[0][2][1][1]) == 2 and all(item(x) for x in cm[0][2][1][1]):
+                from sym import subst
+                kargs = cm[0][2][1][1]
+                if any(is_call(y, 'Output::value') for y in walk(kargs[0])) or any(is_call(y, 'Output::value') for y in walk(kargs[1])):
+                    ctx.undecided(R, 'collect:' + f.path, 'the collecting closure is handed a converted item', fn=f)
+                    continue
+                rr = [q.ret() for q in explore(kids[0], max_visits=1) if q.end == 'return' and not (q.ret()[0] == 'agg' and q.ret()[1].endswith('::Err'))]
+                if len(rr) != 1:
+                    ctx.undecided(R, 'collect:' + f.path, 'the collecting closure has several outcomes', fn=f)
+                    continue
+                r0 = rr[0]
+                while r0[0] == 'agg' and r0[1].endswith('Result::Ok') and r0[2]:
+                    r0 = r0[2][0][1]
+                v = subst(r0, {2: kargs[0], 3: kargs[1]})
             parts = v[1] if v[0] == 'tuple' else (v,)
             ok = len(parts) == len(want[n]) and all(item(x) for x in parts)
             if ok and want[n] == ('key', 'value'):
